@@ -49,6 +49,8 @@ NAMED_CONSTANTS = {
 VIRTUAL_PROPS[("Instruction", "stack_pop_size")] = T.Int
 VIRTUAL_PROPS[("Instruction", "stack_push_size")] = T.Int
 
+ACTIVE_SETS = set()   # optional axiom families switched on by the contract under verification: {"addr"}
+
 BINOPS = {
     "Eq": lambda a, b: z3.If(a == b, 1, 0),
     "Neq": lambda a, b: z3.If(a != b, 1, 0),
@@ -92,7 +94,7 @@ _AX_KEYS = ("F:KnownStackValue", "F:Int.", "F:PushInt.", "F:Txn.", "F:Gtxn.", "F
 def known_sv_axioms(ex: Any, st: Any, n: VRef) -> List[Any]:
     """Instance of the semantic axioms for one KnownStackValue node (cached per node term, visit and heap)."""
     v = st.ghost.get("v")
-    key = (n.term.get_id(), v.term.get_id() if v is not None else None,
+    key = (n.term.get_id(), v.term.get_id() if v is not None else None, tuple(sorted(ACTIVE_SETS)),
            tuple(sorted((k, a.get_id()) for k, a in st.heap.items() if a is not None and k.startswith(_AX_KEYS))))
     hit = _AX_CACHE.get(key)
     if hit is None:
@@ -170,12 +172,13 @@ def _known_sv_axioms(ex: Any, st: Any, n: VRef) -> List[Any]:
                           z3.And(nargs == 0, VAL(vt, it, 0) == ADDRCODE(z3.StringVal(ZERO_ADDRESS)))))
     out.append(z3.Implies(z3.And(cls_is(ex, it, "Global"), cls_is(ex, f_gl.term, "CreatorAddress")),
                           z3.And(nargs == 0, VAL(vt, it, 0) == CREATOR(vt))))
-    Addr = ct.cls("Addr")
-    ad, _ = ex.read_field(VRef(it, Addr, ex), Addr, "_addr", st2)
-    out.append(z3.Implies(cls_is(ex, it, "Addr"),
-                          z3.And(nargs == 0, VAL(vt, it, 0) == ADDRCODE(ad.term), addr_inj(ad.term),
-                                 z3.Length(ad.term) == 58, z3.Not(z3.Contains(ad.term, z3.StringVal("_"))))))
-    out.append(addr_inj(z3.StringVal(ZERO_ADDRESS)))
+    if "addr" in ACTIVE_SETS:
+        Addr = ct.cls("Addr")
+        ad, _ = ex.read_field(VRef(it, Addr, ex), Addr, "_addr", st2)
+        out.append(z3.Implies(cls_is(ex, it, "Addr"),
+                              z3.And(nargs == 0, VAL(vt, it, 0) == ADDRCODE(ad.term), addr_inj(ad.term),
+                                     z3.Length(ad.term) == 58, z3.Not(z3.Contains(ad.term, z3.StringVal("_"))))))
+        out.append(addr_inj(z3.StringVal(ZERO_ADDRESS)))
     # uint64 range of the integer fields used by the properties
     for fname in ("Fee", "GroupIndex", "TypeEnum", "OnCompletion", "ApplicationID"):
         j = z3.Int("j!" + fname)
